@@ -16,7 +16,7 @@ no shock cell other than the endogenized ones moves, the output re-simulates to 
 the original shocks and the whole path.
 """
 from __future__ import annotations
-import contextlib, io, os, json, fractions, math
+import contextlib, io, os, json, fractions, math, zlib
 
 import numpy as np
 import irispie as ir
@@ -249,10 +249,23 @@ def gen_case(rng: Rng, force=None):
     cells = [(v, t) for v in names for t in range(N)]
     has_lead = any(sh > 0 for e in spec["eqs"] for _, _, sh in e["terms"])
     best = None
+    stepped = rng.chance(0.3)
     for _try in range(8):
         targets = rng.sample(cells, k)
         instruments = []
-        for (v, t) in targets:
+        if stepped:
+            # one variable swapped with its own shock on a grid of dates with step 2 or 3 (handed to the plan as one stepped Span)
+            v, d = rng.choice(names), rng.choice([2, 2, 3])
+            cnt = rng.randint(2, max(2, min(3, (N - 1) // d + 1)))
+            t0 = rng.randint(0, max(0, N - 1 - d * (cnt - 1)))
+            targets = [(v, t0 + j * d) for j in range(cnt) if t0 + j * d < N]
+            instruments = [(pre + "e" + v, t) for _, t in targets]
+            others = [c for c in cells if c[0] != v]
+            if others and rng.chance(0.5):
+                o = rng.choice(others)
+                targets.append(o)
+                instruments.append((pre + "e" + o[0], o[1]))
+        for (v, t) in ([] if stepped else targets):
             if (method == "stacked_time" and mode == "unant") or rng.chance(0.5):
                 # stacked time treats every unanticipated date as a frame of its own: identification must hold date by date
                 dates = [t]
@@ -265,7 +278,7 @@ def gen_case(rng: Rng, force=None):
                 instruments.append((pre + "e" + v, t))
             elif pool:
                 instruments.append(rng.choice(pool))
-        if len(instruments) != k:
+        if len(instruments) != len(targets):
             continue
         cond = plan_condition(m, spec, N, targets, instruments)
         if best is None or cond < best[0]:
@@ -275,6 +288,7 @@ def gen_case(rng: Rng, force=None):
     if best is None:
         return None
     _, targets, instruments = best
+    k = len(targets)
     # background shocks (not endogenized); unanticipated ones after the first period would split an anticipated plan into frames
     background = []
     for _ in range(rng.randint(0, 3)):
@@ -378,6 +392,37 @@ def gen_mixed_case(rng: Rng, spec, m, N, method, k):
             "scramble": rng.chance(0.5), "scramble_seed": rng.randint(0, 10**6)}
 
 
+def dates_arg(offs, NP, key):
+    """one of the ways a user can hand the intended plan dates `START + t, t in offs` to exogenize_*/endogenize_*: a tuple or list of
+    periods in the given, reversed or rotated order, a single Period, and -- when the offsets are an arithmetic progression -- a `Span`
+    with that step, forward or backward (negative step), with resolved or context-dependent (`ir.start + a`, `ir.end - c`) end points.
+    The intended set is `offs` whatever the form; `key` picks the form deterministically (so that a replay picks the same)."""
+    offs = [int(t) for t in offs]
+    per = [START + t for t in offs]
+    forms = [("tuple", lambda: tuple(per)), ("list", lambda: list(per)), ("reversed", lambda: tuple(reversed(per))),
+             ("rotated", lambda: tuple(per[1:] + per[:1]))]
+    srt = sorted(set(offs))
+    d = None
+    if len(srt) == len(offs) and len(srt) >= 2 and len({b - a for a, b in zip(srt, srt[1:])}) == 1:
+        d = srt[1] - srt[0]
+    elif len(offs) == 1:
+        d = 1 + key // 7 % 3
+        forms.append(("period", lambda: per[0]))
+    if d is not None:
+        a, b = srt[0], srt[-1]
+        span_forms = [("span", lambda: ir.Span(START + a, START + b, d)), ("backspan", lambda: ir.Span(START + b, START + a, -d))]
+        if 0 <= a and b < NP:
+            span_forms += [("ctxspan", lambda: ir.Span(ir.start + a, ir.end - (NP - 1 - b), d)),
+                           ("ctxback", lambda: ir.Span(ir.end - (NP - 1 - b), ir.start + a, -d))]
+        forms = span_forms * 2 + forms      # spans are the interesting forms: twice the weight
+    name, make = forms[key % len(forms)]
+    return make(), name + (f"(step {d})" if "span" in name or "ctx" in name else "")
+
+
+def form_key(*parts) -> int:
+    return zlib.crc32("|".join(str(x) for x in parts).encode())
+
+
 def stages_of(case):
     """the sequence of (active pair indices, method) simulated with ONE plan object; an unstaged case is one stage with every pair"""
     k = len(case["targets"])
@@ -417,18 +462,22 @@ def run_impl(case):
         md = case["modes"][i] if case.get("modes") else mode
         return "anticipated" if md == "ant" else "unanticipated"
     active: set = set()
+    forms_used: list = []
     results = []
     staged = len(stages_of(case)) > 1
     for si, (want, stage_method) in enumerate(stages_of(case)):
         want = set(want)
-        for i in sorted(want - active):
-            (v, t), (sh, ts) = case["targets"][i], case["instruments"][i]
-            getattr(plan, "exogenize_" + suffix(i))((START + t,), v)
-            getattr(plan, "endogenize_" + suffix(i))((START + ts,), sh)
-        for i in sorted(active - want):
-            (v, t), (sh, ts) = case["targets"][i], case["instruments"][i]
-            getattr(plan, "exogenize_" + suffix(i))((START + t,), v, status=False)
-            getattr(plan, "endogenize_" + suffix(i))((START + ts,), sh, status=False)
+        for idxs, status in ((sorted(want - active), True), (sorted(active - want), False)):
+            # the dates of one name are handed over in one call, as a tuple/list in some order or as a (stepped, backward, contextual) Span
+            groups: dict = {}
+            for i in idxs:
+                (v, t), (sh, ts) = case["targets"][i], case["instruments"][i]
+                groups.setdefault(("exogenize_" + suffix(i), v), []).append(t)
+                groups.setdefault(("endogenize_" + suffix(i), sh), []).append(ts)
+            for (meth, nm), ts_ in groups.items():
+                obj, form = dates_arg(ts_, N, form_key(case["scramble_seed"], si, meth, nm, ts_))
+                forms_used.append(form.split("(")[0])
+                getattr(plan, meth)(obj, nm, status=status)
         active = want
         idx = sorted(active)
         sub = dict(case, targets=[case["targets"][i] for i in idx], instruments=[case["instruments"][i] for i in idx],
@@ -452,7 +501,7 @@ def run_impl(case):
                     if (v, t) not in tset:
                         d = r.dyadic(-2, 2)
                         set_cell(db2, v, t, get_cell(db2, v, t) * math.exp(d / 2) if is_log(spec, v) else get_cell(db2, v, t) + d)
-        out = {"m": m, "db1": db, "sim1": sim1, "db2": db2, "plan": plan}
+        out = {"m": m, "db1": db, "sim1": sim1, "db2": db2, "plan": plan, "forms": list(forms_used)}
         try:
             out["sim2"] = simulate(m, db2, N, stage_method, plan=plan)
         except Exception as e:
@@ -702,6 +751,8 @@ def run_cases(ctx: Ctx, cases, with_model=True):
             continue
         if len(staged) > 1:
             ctx.count(f"staged_cases(one plan object, {len(staged)} simulations)")
+        for f in (staged[-1][1].get("forms") or []):
+            ctx.count(f"cond_plan_dates_as:{f}")
         for case, r in staged:
             ctx.evaluations += 1
             tag = "stage>0:" if case.get("stage", 0) > 0 else ""
@@ -777,6 +828,10 @@ def gen_plan_line(rng: Rng) -> str:
         k = rng.choice(["ea", "na", "eu", "nu"])
         st = "T" if rng.chance(0.8) else "F"
         per = sorted(set(rng.randint(0, NP - 1) for _ in range(rng.randint(1, 3))))
+        if rng.chance(0.45):
+            # a grid of dates with step 1, 2 or 3 (handed to the plan as a stepped / backward / contextual Span, see `dates_arg`)
+            d, a = rng.choice([1, 2, 2, 3]), rng.randint(0, NP - 1)
+            per = [a + j * d for j in range(rng.randint(2, 3)) if a + j * d < NP] or [a]
         if rng.chance(0.08):
             per.append(rng.choice([-1, -1, -2, -NP, NP, NP + 2]))
         nm = sorted(set(rng.randint(0, 2) for _ in range(rng.randint(1, 2))))
@@ -824,12 +879,12 @@ def impl_plan_prefixes(line: str) -> list[str]:
 
     outs = []
     replies = [snapshot(outs)]
-    for op in [o.strip() for o in secs[1].split(";") if o.strip()]:
+    for opj, op in enumerate([o.strip() for o in secs[1].split(";") if o.strip()]):
         _, k, stt, per, nm = op.split()
         reg = KINDS[k]
         rownames = list(getattr(plan, "can_be_" + reg))
         nms = [rownames[int(i)] if int(i) < len(rownames) else "nope" for i in nm.split(",")]
-        pers = tuple(START + int(t) for t in per.split(","))
+        pers, _form = dates_arg([int(t) for t in per.split(",")], NP, form_key(op, opj))
         try:
             getattr(plan, ("exogenize_" if k[0] == "e" else "endogenize_") + reg.split("_")[1])(pers, nms, status=(stt == "T"))
             outs.append("ok")
@@ -865,7 +920,7 @@ def oracle_plan_writes(ctx: Ctx, line: str):
     read = lambda: {k: plan.get_register_as_bool_array(reg).tolist() for k, reg in KINDS.items()}
     before = read()
     done = []
-    for op in [o.strip() for o in secs[1].split(";") if o.strip()]:
+    for opj, op in enumerate([o.strip() for o in secs[1].split(";") if o.strip()]):
         _, k, stt, per, nm = op.split()
         reg = KINDS[k]
         rownames = list(getattr(plan, "can_be_" + reg))
@@ -873,9 +928,11 @@ def oracle_plan_writes(ctx: Ctx, line: str):
         offs = [int(t) for t in per.split(",")]
         nms = [rownames[i] if i < len(rownames) else "nope" for i in idx]
         must_reject = any(i >= len(rownames) for i in idx) or any(t < 0 or t >= NP for t in offs)
+        form = dates_arg(offs, NP, form_key(op, opj))[1]
+        ctx.count(f"plan_dates_as:{form.split('(')[0]}")
         raised = False
         try:
-            getattr(plan, ("exogenize_" if k[0] == "e" else "endogenize_") + reg.split("_")[1])(tuple(START + t for t in offs), nms, status=(stt == "T"))
+            getattr(plan, ("exogenize_" if k[0] == "e" else "endogenize_") + reg.split("_")[1])(dates_arg(offs, NP, form_key(op, opj))[0], nms, status=(stt == "T"))
         except Exception:
             raised = True
         done.append(op)
@@ -883,7 +940,7 @@ def oracle_plan_writes(ctx: Ctx, line: str):
         case = {"line": " | ".join([secs[0], ";".join(done)] + secs[2:])}
         if must_reject:
             if not raised:
-                ctx.fail("plan-out-of-span-or-unknown-name-accepted", case, f"`{op}` on a plan of {NP} periods did not raise")
+                ctx.fail("plan-out-of-span-or-unknown-name-accepted", case, f"`{op}` (dates handed over as {form}) on a plan of {NP} periods did not raise")
                 return
             if after != before:
                 ctx.fail("plan-rejected-call-changed-registers", case, f"`{op}` raised but the registers changed")
@@ -896,7 +953,7 @@ def oracle_plan_writes(ctx: Ctx, line: str):
             if raised or after != want:
                 diff = [(kk, i, t) for kk in want for i, row in enumerate(want[kk]) for t, b in enumerate(row) if after[kk][i][t] != b]
                 ctx.fail("plan-write-touches-other-cells" if not raised else "plan-valid-call-rejected", case,
-                         f"`{op}`: cells differing from 'requested cells = status, everything else unchanged': {diff[:6]}")
+                         f"`{op}` (dates handed over as {form}): cells differing from 'requested cells = status, everything else unchanged': {diff[:6]}")
                 return
         before = after
 
@@ -910,12 +967,12 @@ def impl_plan_once(line: str) -> str:
     NP = int(secs[0].split()[1])
     plan = ir.SimulationPlan(m, START >> START + (NP - 1))
     outs = []
-    for op in [o.strip() for o in secs[1].split(";") if o.strip()]:
+    for opj, op in enumerate([o.strip() for o in secs[1].split(";") if o.strip()]):
         _, k, stt, per, nm = op.split()
         reg = KINDS[k]
         rownames = list(getattr(plan, "can_be_" + reg))
         nms = [rownames[int(i)] if int(i) < len(rownames) else "nope" for i in nm.split(",")]
-        pers = tuple(START + int(t) for t in per.split(","))
+        pers, _form = dates_arg([int(t) for t in per.split(",")], NP, form_key(op, opj))
         try:
             getattr(plan, ("exogenize_" if k[0] == "e" else "endogenize_") + reg.split("_")[1])(pers, nms, status=(stt == "T"))
             outs.append("ok")
